@@ -29,6 +29,9 @@ example : ([97, 98, 97] : Bytes) ≠ [] := by decide
 theorem BMH_fuel_sufficient (text pat : Bytes) (hp : pat ≠ []) : bmh text pat ≠ .error .fuel := by
   rw [bmh_eq_occ text pat hp]; simp
 
+example : bmh [97, 98, 97, 98, 98, 97, 98, 97, 98, 97] [97, 98, 97] ≠ .error .fuel := by
+  rw [show bmh [97, 98, 97, 98, 98, 97, 98, 97, 98, 97] [97, 98, 97] = .ok [0, 5, 7] from rfl]; simp
+
 /-- shift safety, the key lemma: with `c = text[s+m-1]` the last byte of the window at `s`, no occurrence
     starts strictly between `s` and `s + skip[c]` -/
 theorem BMH_shift_safe (text pat : Bytes) (hp : pat ≠ []) (s : Nat) (c : UInt8)
@@ -41,6 +44,10 @@ theorem BMH_shift_safe (text pat : Bytes) (hp : pat ≠ []) (s : Nat) (c : UInt8
     | cons a l => simp
   obtain ⟨v, h1, h2, h3, h4⟩ := bmhSkip_spec pat hm c
   exact ⟨v, h1, h2, fun x hx => shift_safe text pat s v c hm hc h3 h4 x ((mem_occ _ _ _).1 hx)⟩
+
+/-- non-vacuity: window at s = 2 of the docstring example; its last byte is `b` -/
+example : ([97, 98, 97] : Bytes) ≠ [] ∧
+    ([97, 98, 97, 98, 98, 97, 98, 97, 98, 97] : Bytes)[2 + ([97, 98, 97] : Bytes).length - 1]? = some 98 := by decide
 
 /-- outside the domain: the empty pattern on the empty text raises IndexError (`text[-1]`), and on a
     non-empty text the loop never advances (`skip[...] = 0`): the model runs out of fuel -/
